@@ -91,6 +91,10 @@ func LdRead(r io.Reader, zeroLenAsEOF bool, maxReadBytes uint64) ([]byte, error)
 
 	buf := make([]byte, l)
 	if _, err := io.ReadFull(r, buf); err != nil {
+		if err == io.EOF {
+			// The length prefix announced l > 0 bytes and none followed: not a clean end.
+			err = io.ErrUnexpectedEOF
+		}
 		return nil, err
 	}
 
